@@ -58,6 +58,10 @@ Ratios == { <<0, 0>> } \cup
           { r \in { <<n, b * m + o>> : n \in RBlocks, b \in SpanBases, m \in SpanMults, o \in SpanOffsets } :
                 r[1] > 0 /\ r[2] >= r[1] }
 
+\* named offset sets (a .cfg file cannot write negative numbers: CONSTANT SpanOffsets <- OffsetsAround)
+OffsetsAround == { 0 - 1, 0, 1, 200 }
+OffsetsSteps  == { 0 - 600, 0 - 200, 0, 1 }   \* chains of near ties at 10^6: a ~ b ~ c but not a ~ c
+
 Tips == IF TipKind = "ratio"
         THEN { [bn |-> n, vrf |-> v, slots |-> {}, blocks |-> r[1], span |-> r[2]] :
                    n \in 0..MaxBN, v \in {NoVRF} \cup 0..MaxVRF, r \in Ratios }
